@@ -645,6 +645,41 @@ def r07_1(ctx):
     total = 0
     by_class = {}
     seen_keys = set()
+    # A12: a division that belongs to an audited helper which this tree wrote out in place is audited where the helper
+    # is (its restored body), not as a new hazard of the caller
+    o = getattr(ctx.F, 'outliner', None)
+    if o is not None and o.active:
+        from geomalg import tsubst
+        for q in list(c):
+            b = ctx.F.bodies[q]
+            an = ctx.an(b)
+            calls = []
+            for d in an.defs:
+                if d.kind in ('assign', 'call') and not d.partial:
+                    t = an.def_term(d)
+                    if t[0] == 'call' and t[1] in o.active:
+                        calls.append(t)
+            if not calls:
+                continue
+            keep = []
+            for h in c[q]:
+                moved = False
+                if h[0] in ('div', 'rem'):
+                    for ct in calls:
+                        hb = ctx.F.bodies.get(ct[1])
+                        if hb is None:
+                            continue
+                        env = {i + 1: a for i, a in enumerate(ct[2])}
+                        for hh in hazards_of(ctx, hb):
+                            if hh[0] == h[0] and nosite(strip_casts(tsubst(hh[3]['divisor'], env))) == nosite(strip_casts(h[3]['divisor'])):
+                                c.setdefault(ct[1], []).append(hh)
+                                moved = True
+                                break
+                        if moved:
+                            break
+                if not moved:
+                    keep.append(h)
+            c[q] = keep
     for q, hs in sorted(c.items()):
         b = ctx.F.bodies[q]
         groups = {}
